@@ -244,6 +244,9 @@ func (d *DeviceRemote) AddEntityAndFeatures(initialData bool, data *model.NodeMa
 		entity.RemoveAllFeatures()
 
 		for _, fi := range data.FeatureInformation {
+			if fi.Description == nil || fi.Description.FeatureAddress == nil {
+				continue
+			}
 			if reflect.DeepEqual(fi.Description.FeatureAddress.Entity, entityAddress) {
 				if f, ok := unmarshalFeature(entity, fi); ok {
 					entity.AddFeature(f)
@@ -291,7 +294,8 @@ func unmarshalFeature(entity api.EntityRemoteInterface,
 
 	fid := featureData.Description
 
-	if fid == nil {
+	if fid == nil || fid.FeatureAddress == nil || fid.FeatureAddress.Feature == nil ||
+		fid.FeatureType == nil || fid.Role == nil {
 		return nil, false
 	}
 
